@@ -9,7 +9,10 @@ EXPLANATION = (
     "(maintenance table: label index, node-label map, adjacency in both directions, property storage, property "
     "indexes, id allocators); (R1a) forward and backward adjacency are updated with mirrored endpoints; (R2) the "
     "counting and enumerating accessors read the same clock; (R4) a PropertyColumn method that can shrink `values` "
-    "marks the zone map dirty or rebuilds it, and inserts widen it. Value-level equality of the access paths is not decided.")
+    "marks the zone map dirty or rebuilds it, and inserts widen it; (R3) when an entity moves between two property-index "
+    "buckets the removal precedes the insertion; (R5) adjacency reads go through one iterator that covers cold, hot and "
+    "delta tiers and filters deleted edges, and compaction moves entries between tiers without dropping them. "
+    "Value-level equality of the access paths is not decided.")
 ASSUMPTIONS = ["the maintenance table in rules/c14.py (one row per mutator, confirmed by reading store.rs)"]
 
 L = common.LPG
